@@ -201,6 +201,15 @@ pub fn run(ctx: &mut Ctx) {
                 let a = ask(&e, &rq);
                 let v = scan.verdict(&rq, &url, &tags, &res);
                 let d: Vec<&str> = diff(&a, &v).into_iter().filter(|f| matches!(*f, "redirect" | "matched" | "important" | "exception")).collect();
+                // the multi-engine entry point: the redirect does not depend on what an earlier
+                // engine decided or on whether exceptions are forced
+                let mut subset_differs: Option<serde_json::Value> = None;
+                for (prev, force) in [(true, false), (true, true), (false, true)] {
+                    let s = e.check_network_request_subset(&rq, prev, force);
+                    if s.redirect != a.redirect {
+                        subset_differs = Some(json!({"previously_matched_rule": prev, "force_check_exceptions": force, "redirect": s.redirect}));
+                    }
+                }
                 let a2 = crate::mon::c05::blocker_answer(&blocker, &storage, &rq);
                 let d2: Vec<&str> = diff(&a2, &v).into_iter().filter(|f| matches!(*f, "redirect" | "matched" | "important" | "exception")).collect();
                 let nt = v.redirect_candidates >= 2 || (v.redirect_candidates >= 1 && v.redirect_exceptions >= 1);
@@ -208,6 +217,13 @@ pub fn run(ctx: &mut Ctx) {
                 let detail = json!({"rules": rules, "resources": store.iter().map(|s| json!({"name": s.name, "aliases": s.aliases, "kind": s.kind, "permission": s.perm})).collect::<Vec<_>>(),
                     "url": url, "source": source, "type": ty, "optimize": optimize, "engine": a.to_json(), "oracle": verdict_json(&v),
                     "redirect_candidates": v.redirect_candidates, "matching_redirect_exceptions": v.redirect_exceptions});
+                if let Some(sd) = subset_differs {
+                    let mut det = detail.clone();
+                    if let Some(o) = det.as_object_mut() {
+                        o.insert("check_network_request_subset".into(), sd);
+                    }
+                    out.push(("redirect-depends-on-subset-flags".to_string(), nt, h, det, true));
+                }
                 if !d2.is_empty() && d.is_empty() {
                     let mut det = detail.clone();
                     if let Some(o) = det.as_object_mut() {
